@@ -172,6 +172,7 @@ func c06() {
 		run.Require("ja_bridges_observed", 1)
 		run.Require("early_return_bridges_observed", 1)
 	}
+	run.RunSecondaryBuild()
 	run.Finish(run.Counter("label_programs"), int64(len(shapes)),
 		"label programs built only through NewProgram/NewLabel/SetLabel/JmpIf/JmpIfTrue/LdHi/LdLo/Ret/Assemble: catalogue (one jump at distances 1..1000 to ret/load/jump, 0..300 preceding ops, true/false/both far, shared far labels, jump-sparse and jump-dense fillers; two interacting jumps with all combinations of four distances from {1,2,254..258,511..513} and gaps {1,2,3,100,253..257}) + PRNG forward DAGs up to 3000 ops; oracle: simultaneous walk over all reachable (label pc, assembled pc) pairs; distinct = (ops, inserted instructions, ja bridges)")
 }
